@@ -315,20 +315,59 @@ class IncSolver:
 
     def __init__(self, axioms, timeout_ms):
         self.s = z3.Solver()
-        self.s.set('timeout', timeout_ms)
+        # the incremental solver gets a short budget: when it does not answer quickly the obligation is
+        # retried from scratch with the full budget (fresh solver state often decides at once what the
+        # incremental state does not)
+        self.s.set('timeout', min(timeout_ms, 3000))
+        # a second incremental solver sees the sequence-theory abstraction of the same formulas
+        # (abstract.py: interpreted sequence operations become uninterpreted, one constant per term).
+        # Every model of the exact formula induces a model of the abstract one, so `unsat` of the
+        # abstraction proves the obligation; anything else falls through to the exact solver.
+        from .abstract import SeqAbs
+        self.abs = SeqAbs()
+        self.a = z3.Solver()
+        self.a.set('timeout', min(timeout_ms, 2000))
         for a in axioms:
             self.s.add(a)
+            self.a.add(self.abs.form(a))
         self.n = 0
         self.timeout_ms = timeout_ms
+        self.abs_ok = self.inc_ok = True      # an incremental solver that timed out once on this path is dropped
+
+    def _abs_add(self, c):
+        if not self.abs_ok:
+            return
+        f = self.abs.form(c)
+        for x in self.abs.facts():
+            self.a.add(x)
+        self.a.add(f)
 
     def solve(self, ob, use_cvc5=True):
         t0 = time.time()
         for c in ob.pc[self.n:]:
             self.s.add(c)
+            self._abs_add(c)
         self.n = max(self.n, len(ob.pc))
         g = ob.goal
         if (ob.info or {}).get('trivial') == 'assumed' or z3.is_true(z3.simplify(g)):
             return {'status': 'discharged', 'backend': 'trivial', 'time_s': 0.0}
+        if self.abs_ok:
+          try:
+            ng = self.abs.form(z3.Not(g))
+            for x in self.abs.facts():
+                self.a.add(x)         # facts about the constants just introduced stay (outside the push)
+            self.a.push()
+            self.a.add(ng)
+            ra = self.a.check()
+            self.a.pop()
+            if ra == z3.unsat:
+                return {'status': 'discharged', 'backend': 'z3(seq-abstraction)', 'time_s': round(time.time() - t0, 3)}
+            if ra == z3.unknown:
+                self.abs_ok = False
+          except z3.Z3Exception:
+            self.abs_ok = False
+        if not self.inc_ok:
+            return solve_obligation(ob, self.timeout_ms, use_cvc5)
         self.s.push()
         self.s.add(z3.Not(g))
         r = self.s.check()
@@ -351,6 +390,7 @@ class IncSolver:
         if r == z3.unsat:
             return {'status': 'discharged', 'backend': 'z3', 'time_s': round(time.time() - t0, 3)}
         # unknown: retry from scratch (fresh solver state), then cvc5
+        self.inc_ok = False
         return solve_obligation(ob, self.timeout_ms, use_cvc5)
 
 
@@ -423,6 +463,7 @@ def verify_function(src, reg, key, opts=None):
                              'time_s': 0.0}
                         for c_ in ob.pc[inc.n:]:
                             inc.s.add(c_)
+                            inc._abs_add(c_)
                         inc.n = max(inc.n, len(ob.pc))
                     else:
                         r = inc.solve(ob, opts.get('cvc5', True))
